@@ -129,6 +129,14 @@ func c02FamilyRows() []model.Row {
 		{"a": "aaaaaaaaa", "b": "zz", "c": "1", "d": "1"},
 		{"a": "aaaaaaaab", "b": "aaaaaaa", "c": "1", "d": "1"},
 		{"a": "aaaaaaaa", "b": "aaaaaaaaz", "c": "1", "d": "1"},
+		// column names that occur as values of each other / of themselves (a key derived from name and value separately
+		// and combined commutatively confuses them)
+		{"a": "b", "b": "a"},
+		{"a": "b"},
+		{"b": "a"},
+		{"p": "p"},
+		{"q": "q", "a": "a"},
+		{"p": "q", "q": "p"},
 	}
 }
 
@@ -230,6 +238,10 @@ func c02Worker(ctx *rt.Ctx, job *rt.Job) []*rt.Violation {
 		dss = [][]model.Row{c02FamilyRows()}
 		gls = append(lists([]string{"a", "b", "c", "d"}, 0, 4), lists([]string{"a", "d"}, 5, 6)...)
 		gls = append(gls, []string{"a", "b", "c", "d", "a", "d"}, []string{"d", "c", "b", "a", "d", "c"}, []string{"a", "b", "c", "d", "zz"})
+		gls = append(gls, lists([]string{"a", "b", "p", "q"}, 1, 2)...)
+		// names that differ from a real column only in case are unknown columns
+		gls = append(gls, []string{"A"}, []string{"a", "B"}, []string{"P", "q"}, []string{"D", "d"})
+		exprs = append(exprs, model.Eq("a", "b"), model.Not(model.Eq("p", "p")))
 		exprs = append(exprs, model.Eq("d", "2"), model.Not(model.Eq("c", "1")))
 	} else if a.Wide {
 		// a group-by column with more than 1000 distinct values (1100) next to small ones
